@@ -14,7 +14,7 @@ theorem interp_consts :
 
 /-- the literal tests in `executeOne`: `execStackDepth >= 100` (at entry and for a procedure called by name), `level < 5`, `len(Stack) > 500` -/
 theorem interp_literal_tests :
-    Consts.root_execDepthTests = [">= 100", ">= 100"] ∧ Consts.root_errorLevelTests = ["< 5"] ∧
+    Consts.root_execDepthTests = [">= 100"] ∧ Consts.root_errorLevelTests = ["< 5"] ∧
     Consts.root_stackDepthTests = ["> 500"] ∧ Consts.root_internaldictTests = ["!= 1183615869"] := by
   refine ⟨rfl, rfl, rfl, rfl⟩
 
